@@ -57,6 +57,18 @@ class ShardWriterNP(ShardWriterBase):
 
             values (dict[str, npt.NDArray[np.generic]]): Attribute values.
         """
+        # Only the declared attributes: an unexpected one would be buffered
+        # for this example alone (the shard could then not be iterated) or
+        # fail in the middle of buffering (leaving a partial example behind).
+        expected = {
+            attribute.name
+            for attribute in self.dataset_structure.saved_data_description
+        }
+        unexpected = [name for name in values if name not in expected]
+        if unexpected:
+            raise ValueError(f"Unexpected attributes {unexpected}, expected "
+                             f"{sorted(expected)}")
+
         # Just buffer all values.
         if not self._buffer:
             self._buffer = {
